@@ -154,6 +154,10 @@ def main(rep: Report, replay: dict | None) -> None:
                 raise tlc.MachineryError(f"no pre-clean-up operation found for {case}")
             for f in plans(case, ops, boundary, rep.tier, rng):
                 jobs.append((case, f, expected(case, f, f["k"], ops)))
+            if case["api"] == "new":
+                # a raising finalizer hook of the renderable (runs at the very end of draw()'s
+                # clean-up): the exception reaches the caller, the terminal is restored all the same
+                jobs.append((case, dict(k=0, p=0, kind="exc", hook="finalize"), "InjectedError"))
             rep.sample({"case": case, "ops_before_cleanup": boundary,
                         "ops": [o[0] for o in ops][:40]})
     traces, owners = [], []
@@ -181,11 +185,11 @@ def main(rep: Report, replay: dict | None) -> None:
             api = case["api"]
             kind = "anim" if case["frames"] > 1 else "still"
             style = case.get("style", "probe")
-            op = res["ops"][fault["k"] - 1][0]
+            op = fault.get("hook") or res["ops"][fault["k"] - 1][0]
             rep.violation(
                 f"{api}-api:{style}:{kind}:{fault['kind']}@{op}:{clause}",
                 f"{v['verdict']}; fault {fault} (operation #{fault['k']} = {op}"
-                f"{', data ' + repr(res['ops'][fault['k'] - 1][1][:40]) if op == 'write' else ''}), "
+                f"{', data ' + repr(res['ops'][fault['k'] - 1][1][:40]) if op == 'write' and not fault.get('hook') else ''}), "
                 f"caller saw {res['outcome']}; delivered {res['text'][-80:]!r}; case={json.dumps(case)}",
                 {"kind": "fault", "case": case, "fault": fault, "expect": expect},
             )
